@@ -6,7 +6,8 @@ M/R: StdLib.tla states the contracts (truncate_stack = the original top 16 eleme
      pos-th leaf; sparse Merkle tree = a key -> value map whose `set` returns the old value).  GEN_Std enumerates
      scenarios with the prescribed results: every stack depth 16..40, every (n, read_ptr, write_ptr) with n <= 5 over
      overlapping ranges, every word count 0..5 for the pipes, every leaf count up to 9 (thorough: 20) with every
-     position, every initial map x every history of get / set / remove of length 2 (thorough: 3) over three keys two of
+     position, accumulators given by their peaks for every peak count 1..32 (pack = hash of the peak words padded to an even
+     count of at least 16, unpack restores them), every initial map x every history of get / set / remove of length 2 (thorough: 3) over three keys two of
      which share a leaf.  Each scenario is compiled into a program calling the real std:: procedures and run on the VM;
      stack, memory and roots are compared with the prescription and with the native miden-crypto Mmr / Smt.
 """
@@ -68,6 +69,15 @@ def render(s):
         body += "  push.%d exec.mmr::num_leaves_to_num_peaks\n" % n
         return {"src": "use.std::collections::mmr\nbegin\n%send\n" % body, "inputs": [], "mmr_leaves": [[str(x) for x in W(i)] for i in range(1, n + 1)],
                 "mem_dump": [1000] + list(range(1001, 1001 + 8)) + list(range(2000, 2000 + n)) + [2500] + list(range(1500, 1509)) + list(range(2600, 2600 + n))}
+    if k == "mmrpack":
+        np_, nl = s["np"], s["leaves"][0] + (s["leaves"][1] << 16)
+        body = "  push.%d.0.0.0 mem_storew.1000 dropw\n" % nl
+        body += "".join("  %s mem_storew.%d dropw\n" % (pw(W(i)), 1000 + i) for i in range(1, np_ + 1))
+        body += "  push.1000 exec.mmr::pack mem_storew.2500 push.3000 movdn.4 exec.mmr::unpack\n"
+        padded = [x for w in s["padded"] for x in (W(w) if w else [0, 0, 0, 0])]
+        return {"src": "use.std::collections::mmr\nbegin\n%send\n" % body, "inputs": [], "hash_elems": [str(x) for x in padded],
+                "mmr_peaks": {"num_leaves": str(nl), "peaks": [[str(x) for x in W(i)] for i in range(1, np_ + 1)]},
+                "mem_dump": [2500] + list(range(3000, 3001 + np_)) + [3001 + np_, 3002 + np_]}
     if k == "smt_forged":
         r_ = render(dict(s, kind="smt"))
         r_["smt_forge"] = True
@@ -94,7 +104,7 @@ def run(tier, replay=None):
     wd = workdir("C18", clean=True)
     thorough = tier == "thorough"
     scs = []
-    for kind in ("truncate", "memcopy", "pipe", "pipe2", "mmrfn", "mmr", "smt"):
+    for kind in ("truncate", "memcopy", "pipe", "pipe2", "mmrfn", "mmr", "mmrpack", "smt"):
         r, ss = gen(kind, wd, maxleaves=20 if thorough else 9, histlen=3 if thorough else 2)
         ck.add_tlc(r)
         if r.violation:
@@ -225,6 +235,17 @@ def run(tier, replay=None):
                     bad("get-unpacked", "mmr::get on the unpacked copy returns %s, prescribed the leaves in order" % [g[0] if g else None for g in gets2])
                 if st[0] != str(s["npeaks"]):
                     bad("num_peaks", "num_leaves_to_num_peaks(%d) = %s, prescribed %d" % (n, st[0], s["npeaks"]))
+            elif k == "mmrpack":
+                np_, nl = s["np"], s["leaves"][0] + (s["leaves"][1] << 16)
+                z = ["0", "0", "0", "0"]
+                if mem[0] != nat["hash"]:
+                    bad("pack-hash", "mmr::pack of %d peaks (%d leaves) returned %s; the hash of the %d padded peak words is %s" % (np_, nl, mem[0], s["words"], nat["hash"]))
+                if "mmr_peaks" in nat and mem[0] != nat["mmr_peaks"]["hash_peaks"]:
+                    bad("pack-native", "mmr::pack of %d peaks (%d leaves) returned %s; native MmrPeaks::hash_peaks gives %s" % (np_, nl, mem[0], nat["mmr_peaks"]["hash_peaks"]))
+                want = [[str(nl), "0", "0", "0"]] + [[str(x) for x in W(i)] for i in range(1, np_ + 1)]
+                got = [m or z for m in mem[1:2 + np_]]
+                if got != want:
+                    bad("unpack", "the accumulator unpacked from the advice map differs from the packed one (%d peaks): %s" % (np_, [g[0] for g in got]))
             elif k == "smt":
                 want = [[str(x) for x in VALS[v]] for v in s["results"]]
                 if mem != want:
